@@ -822,6 +822,135 @@ def stream_io(c, spec, tmp, rng, pending, nsteps, variant):
             pending.append((line, cmp_res))
 
 
+def uses_sin(spec):
+    return any(f == "@sin" for eq in spec["eqs"] + spec["init_eqs"] + spec.get("extras", [])
+               for _c, fs in eq["terms"] for f in fs)
+
+
+def stream_io_steps(c, spec, tmp, rng, pending):
+    """IOMixin driven by explicit update(dt) calls whose dt differs from the import spacing (coarser
+    steps, sub-steps, mixed with update(-1)), also on a non-equidistant import axis: the inputs of a
+    step are the series values at index bisect_left(times_sec, t + dt) (the first import stamp not
+    before the new time; a NaN keeps the previous value) and the backward-Euler equations hold with them"""
+    import bisect
+
+    MemSim = sim_classes()[2]
+    mdir = os.path.join(tmp, "model")
+    idir = os.path.join(tmp, "input_" + spec["name"])
+    os.makedirs(idir, exist_ok=True)
+    G.write_mo(spec, mdir)
+    names = G.all_names(spec)
+    g = rng.choice([1.0, 0.5, 2.0, 0.25])
+    pre = rng.choice([0, 1, 2])
+    nstamps = 16
+    uneven = rng.random() < 0.35
+    times_sec = [-g * pre + g * j for j in range(pre + 1)]  # ..., -g, 0
+    while len(times_sec) < pre + nstamps:
+        times_sec.append(times_sec[-1] + (g * rng.choice([1, 0.5, 2, 1.5]) if uneven and len(times_sec) > max(pre, 1) + 0 else g))
+    if len(times_sec) < 2:
+        times_sec.append(g)
+    dt_import = times_sec[1] - times_sec[0]
+    series = {u: [G.dy(rng, -2, 2) for _ in times_sec] for u in spec["inputs"]}
+    for u in spec["inputs"]:
+        for j in range(pre + 1, len(times_sec)):
+            if rng.random() < 0.12:
+                series[u][j] = float("nan")
+    # the plan of update() arguments
+    plan, t = [], 0.0
+    for _ in range(8):
+        dta = rng.choice([-1.0, g, 2 * g, g / 2, g / 2, 1.5 * g, 3 * g])
+        eff = dt_import if dta < 0 else dta
+        if t + eff > times_sec[-1]:
+            break
+        plan.append((dta, eff, t + eff, bisect.bisect_left(times_sec, t + eff)))
+        t = t + eff
+    case = {"stream": "io/memstep", "spec": spec, "grid": g, "times_sec": times_sec, "series": series,
+            "update_args": [p_[0] for p_ in plan]}
+    r = call(MemSim, model_folder=mdir, model_name=spec["name"], input_folder=idir, output_folder=idir)
+    c.programs += 1
+    if r[0] == "raise":
+        c.fail("model does not load: " + r[1], case)
+        return
+    sim = r[1]
+    sim.c09_names, sim.c09_log = names, []
+    sim.c09_data = {"times_sec": times_sec, "series": series, "params": {}}
+    r = call(lambda: (sim.pre(), sim.initialize()))
+    if r[0] == "raise":
+        c.hit("io/raise")
+        if affine_ok(spec):
+            c.disagree("initialize() raised on an affine (consistent) model: " + r[1], case, "returned", "raise")
+        return
+    log = sim.c09_log
+    check_init(c, case, spec, log[0], G.fixed_starts(spec), "io/memstep")
+    lastv = {}
+    for u in spec["inputs"]:
+        v = series[u][pre]
+        lastv[u] = v
+        if log[0][u] != v:
+            c.fail("io: input %s at t0 is not the series value at t0" % u, case, {"expected": v, "got": log[0][u]})
+    done = 0
+    for k, (dta, eff, tnew, idx) in enumerate(plan):
+        r = call(sim.update, dta)
+        if r[0] == "raise":
+            c.hit("io/raise")
+            if affine_ok(spec):
+                c.disagree("update(%s) raised on an affine (uniquely solvable) model: %s" % (dta, r[1]), dict(case, step=k),
+                           "returned", "raise")
+            break
+        done += 1
+        prev, cur = log[-2], log[-1]
+        c.count(("io-memstep", spec["name"], k, dta < 0, eff == dt_import, tnew in times_sec))
+        c.hit("io/memstep-" + ("import-dt" if eff == dt_import else "coarser" if eff > dt_import else "sub-step"))
+        if cur["time"] != tnew:
+            c.fail("io: time after update(%s) is not t + dt" % dta, dict(case, step=k), {"expected": tnew, "got": cur["time"]})
+        for u in spec["inputs"]:
+            v = series[u][idx]
+            if not math.isnan(v):
+                lastv[u] = v
+            if cur[u] != lastv[u]:
+                c.fail("io: input %s used by the step to t + dt = %s is not the import value at the first stamp not "
+                       "before t + dt (index %d)" % (u, tnew, idx), dict(case, step=k),
+                       {"expected": lastv[u], "got": cur[u], "t_new": tnew, "stamp": times_sec[idx]})
+        check_step(c, dict(case, step=k), spec, prev, cur, eff, "io/memstep")
+    res = sim.extract_results()
+    for o in spec["outputs"]:
+        try:
+            vals = [float(x) for x in res[o]]
+        except KeyError:
+            c.fail("io: output %s missing from extract_results()" % o, case)
+            continue
+        want = [l[o] for l in log]
+        if len(vals) != done + 1:
+            c.fail("io: output %s has %d records for %d updates (+ t0)" % (o, len(vals), done), case, vals)
+        elif vals != want:
+            c.fail("io: recorded output %s differs from get_var at the same steps" % o, case, {"recorded": vals, "get_var": want})
+    # model: the IO loop with the explicit dt arguments (affine models without the sin(time) pseudo-input)
+    if affine_ok(spec) and not uses_sin(spec) and done == len(plan) and plan:
+        w = Wire(spec, {p["n"]: log[0][p["n"]] for p in spec["params"]})
+        c.hit("io/affine-runs")
+        ser = [{"idx": w.idx[u][0], "neg": False, "vals": [None if math.isnan(x) else fr(x) for x in series[u]]}
+               for u in spec["inputs"]]
+        sv0 = w.sv(log[0])
+        line = dict(op="run", sv0=frs([0.0] * w.nX + sv0[w.nX:]), X0=frs(w.rawX(log[0])), timesSec=frs(times_sec),
+                    series=ser, outs=[[w.idx[o][0], w.idx[o][1]] for o in spec["outputs"]],
+                    dts=frs([p_[0] for p_ in plan]), dtImport=fr(dt_import), **w.base())
+
+        def cmp_run(out, case=case, log=log, spec=spec, plan=plan):
+            if not isinstance(out, dict) or out.get("status") != "ok":
+                c.disagree("io run (explicit dt): model did not return", case, out, "ok")
+                return
+            if [float(unfr(t_)) for t_ in out["times"]] != [0.0] + [p_[2] for p_ in plan]:
+                c.disagree("io run (explicit dt): simulation times", case, out["times"], [0.0] + [p_[2] for p_ in plan])
+            nm = row_scale(spec)
+            for o, mo in zip(spec["outputs"], out["out"]):
+                want = [l[o] for l in log]
+                if len(mo) != len(want) or not all(abs(float(unfr(m)) - x) <= TRAJ_TOL * max(1.0, abs(x), nm[o])
+                                                   for m, x in zip(mo, want)):
+                    c.disagree("io run (explicit dt): output %s" % o, case, [float(unfr(m)) for m in mo], want)
+
+        pending.append((line, cmp_run))
+
+
 # ------------------------------------------------------------------------------------------------
 # stream `xcheck`: simulation vs optimisation transcription (theta = 1, controls fixed)
 
@@ -1132,7 +1261,10 @@ def run_specs(c, specs_plain, specs_io, specs_x, nsteps):
             stream_plain(c, spec, os.path.join(tmp, "plain"), random.Random(sub), pending, nsteps)
             c.sample({"stream": "plain", "model": G.write_mo(spec, os.path.join(tmp, "plain"))}, limit=2)
         for spec, sub, variant in specs_io:
-            stream_io(c, spec, os.path.join(tmp, "io"), random.Random(sub), pending, nsteps, variant)
+            if variant == "memstep":
+                stream_io_steps(c, spec, os.path.join(tmp, "io"), random.Random(sub), pending)
+            else:
+                stream_io(c, spec, os.path.join(tmp, "io"), random.Random(sub), pending, nsteps, variant)
         for spec, sub in specs_x:
             stream_xcheck(c, spec, os.path.join(tmp, "x"), random.Random(sub), nsteps)
         stream_unsolvable(c, tmp, c.rng, pending)
@@ -1186,7 +1318,9 @@ def run(c):
         "equations); streams: plain update() with varying dt (positive and -1), start time != 0 and set_var on states "
         "between steps; IO mixins: CSVMixin (files incl. parameters.csv / initial_state.csv, exported CSV read back), "
         "PIMixin (generated rtcDataConfig / timeseries_import / rtcParameterConfig XML, forecast date inside the "
-        "series, missing values, exported XML read back) and an in-memory IOMixin (t0 inside the series, NaN gaps); "
+        "series, missing values, exported XML read back) and an in-memory IOMixin (t0 inside the series, NaN gaps; "
+        "also stepped by explicit update(dt) with dt coarser / finer than the import spacing and on a non-equidistant "
+        "import axis: inputs = import value at bisect_left(times, t+dt)); "
         "optimisation cross-check (ModelicaMixin + collocation, theta = 1, controls fixed by bounds, IPOPT); four "
         "unsolvable step / initialisation models; bisect table.  distinct = (stream, model, step) tuples"
     )
@@ -1206,7 +1340,7 @@ def run(c):
     c.prove(extra=gen_sim_step(c))  # + the simulation bookkeeping translated from the source
     rng = c.rng
     n_plain = c.n(18, 120)
-    n_io = c.n(18, 120)
+    n_io = c.n(24, 160)
     n_x = c.n(8, 60)
     nsteps = 10
     k = 0
@@ -1215,7 +1349,7 @@ def run(c):
         specs_plain.append((G.gen_spec(random.Random(c.subseed()), k, big=c.big, with_extras=(k % 3 == 2)), c.subseed()))
         k += 1
     for i in range(n_io):
-        specs_io.append((G.gen_spec(random.Random(c.subseed()), k, big=c.big), c.subseed(), ("csv", "mem", "pi")[i % 3]))
+        specs_io.append((G.gen_spec(random.Random(c.subseed()), k, big=c.big), c.subseed(), ("csv", "mem", "pi", "memstep")[i % 4]))
         k += 1
     for _ in range(n_x):
         specs_x.append((G.gen_spec(random.Random(c.subseed()), k, exact_init=True, big=c.big), c.subseed()))
